@@ -1,0 +1,9 @@
+//go:build verif
+
+package discovery
+
+// VerifAggregation exposes the in-memory aggregation held by a State to the
+// verification harness (read-only use; compiled only with the `verif` build tag).
+func (state *State) VerifAggregation() *Agg {
+	return state.aggregation
+}
